@@ -260,7 +260,18 @@ fn c08_case(rng: &mut Rng, release: bool) -> String {
             if let Some(x) = ga.as_ref() { x.verif_pdi_get(&mut img_n[0]); } if let Some(x) = gb.as_ref() { x.verif_pdi_get(&mut img_n[1]); } if let Some(x) = gc.as_ref() { x.verif_pdi_get(&mut img_n[2]); }
             for o in 0..3 { if o != $gi && img_o[o] != img_n[o] { bad.push(format!("the image of group {} changed during a cycle of group {}", o, $gi)); } }
             let _ = $P;
-            probes.push(format!("{{\"group\":{},\"bad\":[{}]}}", $gi, bad.iter().take(4).map(|s| format!("{:?}", s)).collect::<Vec<_>>().join(",")));
+            // for the model: image and process-data memory regions before and after the cycle
+            let plen = g.verif_lens().0;
+            let hexs = |b: &[u8]| b.iter().map(|x| format!("{:02x}", x)).collect::<String>();
+            let mut regions: Vec<String> = Vec::new();
+            for k in 0..g.len() { let sd = g.subdevice(md, k).unwrap(); let p = (sd.configured_address() - 0x1000) as usize;
+                let end = want[p].iter().map(|(_, _, st, l)| *st as usize + *l as usize).max().unwrap_or(0x1100);
+                let tot: usize = want[p].iter().map(|(_, _, _, l)| *l as usize).sum();
+                let hi = (end + tot + 8).min(0x10000).max(0x1100);
+                regions.push(format!("{{\"pos\":{},\"base\":{},\"before\":\"{}\",\"after\":\"{}\"}}", p, 0x1100, hexs(&before[p][0x100..hi - 0x1000]), hexs(&seg.devices[p].mem[0x1100..hi])));
+            }
+            probes.push(format!("{{\"group\":{},\"bad\":[{}],\"img_before\":\"{}\",\"img_after\":\"{}\",\"regions\":[{}]}}", $gi, bad.iter().take(4).map(|s| format!("{:?}", s)).collect::<Vec<_>>().join(","),
+                hexs(&img_o[$gi][..plen.min($P)]), hexs(&img_n[$gi][..plen.min($P)]), regions.join(",")));
         } }}; }
         probe!(ga, 0usize, PA); probe!(gb, 1usize, PB); probe!(gc, 2usize, PC);
         Ok((vec![sa.unwrap(), sb.unwrap(), sc.unwrap()], probes))
